@@ -30,3 +30,12 @@ Definition max_depth (m : machine) (l : list nat) : option nat :=
                            | None => Some x
                            | Some b => if Nat.ltb (depth m b) (depth m x) then Some x else Some b
                            end) l None.
+
+(* ---- selection (coq/Gen/GenGeom.v: _collect_eligible_transitions, _select_transitions) ---- *)
+(* isinstance(event, AfterEvent) / isinstance(event, DoneEvent) / event.src == s *)
+Definition is_after_event (ev : event) : bool := match e_kind ev with EAfter => true | _ => false end.
+Definition is_done_event (ev : event) : bool := match e_kind ev with EDone _ => true | _ => false end.
+Definition ev_src_eqb (ev : event) (s : string) : bool := match e_kind ev with EDone src => String.eqb src s | _ => false end.
+(* max(x0 :: xs, key=...): the first element with the maximal key *)
+Definition py_max_by {A} (key : A -> nat) (x0 : A) (xs : list A) : A :=
+  fold_left (fun best x => if Nat.ltb (key best) (key x) then x else best) xs x0.
